@@ -83,6 +83,57 @@ def _reject_unsealed(func):
     return "false", "<no statement rejects a reply without security trailer>"
 
 
+def _stmts(func):
+    return [ast.unparse(st) for st in func.body if not (isinstance(st, ast.Expr) and isinstance(st.value, ast.Constant))]
+
+
+def _recv_sync_shape(func):
+    """SyncRpcClient._send_pdu after the send: the statement skeleton of the two read loops - accumulate until 16 header octets, EOF
+    test right after each read, buffer of exactly frag_len octets, header copied to its front, body read into the remaining view
+    until it is empty - and nothing else touching the buffer before _process_response."""
+    want = [
+        "b_pdu = self._prepare_pdu(pdu, encrypt_offsets)",
+        "self._sock.sendall(b_pdu)",
+        "header = bytearray()",
+        "while len(header) < 16:\n    data = self._sock.recv(16 - len(header))\n    if not data:\n        raise EOFError('Connection closed while reading the PDU header')\n    header += data",
+        "resp_header = PDUHeader.unpack(header)",
+        "resp = bytearray(resp_header.frag_len)",
+        "view = memoryview(resp)",
+        "view[:16] = header",
+        "view = view[16:]",
+        "while view:\n    read = self._sock.recv_into(view)\n    if not read:\n        raise EOFError('Connection closed while reading the PDU body')\n    view = view[read:]",
+        "return self._process_response(resp, resp_header, resp_type, encrypt_offsets)",
+    ]
+    have = _stmts(func)
+    if have != want:
+        for i, (a, b) in enumerate(zip(have + [""] * len(want), want + [""] * len(have))):
+            if a != b:
+                raise Unsupported(f"statement {i} of the sync receive path is `{a[:80]}`, expected `{b[:80]}`")
+    return "true", "statement skeleton of SyncRpcClient._send_pdu (send, header loop, buffer, body loop, _process_response)"
+
+
+def _recv_async_shape(func):
+    want = [
+        "b_pdu = self._prepare_pdu(pdu, encrypt_offsets)",
+        "self._writer.write(b_pdu)",
+        "await self._writer.drain()",
+        "header = await self._reader.readexactly(16)",
+        "resp_header = PDUHeader.unpack(header)",
+        "resp = bytearray(resp_header.frag_len)",
+        "view = memoryview(resp)",
+        "view[:16] = header",
+        "view[16:] = await self._reader.readexactly(len(resp) - 16)",
+        "return self._process_response(resp, resp_header, resp_type, encrypt_offsets)",
+    ]
+    have = _stmts(func)
+    if have != want:
+        for i, (a, b) in enumerate(zip(have + [""] * len(want), want + [""] * len(have))):
+            if a != b:
+                raise Unsupported(f"statement {i} of the async receive path is `{a[:80]}`, expected `{b[:80]}`")
+    return "true", "statement skeleton of AsyncRpcClient._send_pdu (write, drain, readexactly(16), buffer, readexactly(rest), _process_response)"
+
+
+
 KERNELS = [
     # ---- C15: bind / auth handshake ---------------------------------------------------------
     K("k_bind_loop_guard", F, "SyncRpcClient.bind", ("while", 0), [("self__auth_complete", B)], B, props=("C15",)),
@@ -104,6 +155,14 @@ KERNELS = [
       [("response_sec_trailer", B), ("response_sec_trailer_pad_length", Z)], B, props=("C13",)),
     K("k_strip_len", "_client.py", "_process_get_key_result", ("augassign", "pad_length", 0),
       [("pad_length", Z), ("response_sec_trailer_pad_length", Z)], Z, props=("C13",)),
+    # ---- C14: the two receive functions (their buffers are filled through memoryview aliases, which the flow semantics cannot
+    #      express: guards, requested sizes and the EOF tests are tied as kernels instead) ---------------------------------
+    K("k_recv_hdr_guard", F, "SyncRpcClient._send_pdu", ("while", 0), [("len_header", Z)], B, props=("C14",)),
+    K("k_recv_hdr_want", F, "SyncRpcClient._send_pdu", ("callarg", "self._sock.recv", 0, 0), [("len_header", Z)], Z, props=("C14",)),
+    K("k_recv_async_hdr_want", F, "AsyncRpcClient._send_pdu", ("callarg", "self._reader.readexactly", 0, 0), [], Z, props=("C14",)),
+    K("k_recv_async_body_want", F, "AsyncRpcClient._send_pdu", ("callarg", "self._reader.readexactly", 1, 0), [("len_resp", Z)], Z, props=("C14",)),
+    K("k_recv_sync_shape", F, "SyncRpcClient._send_pdu", ("custom", _recv_sync_shape), [], B, props=("C14",)),
+    K("k_recv_async_shape", F, "AsyncRpcClient._send_pdu", ("custom", _recv_async_shape), [], B, props=("C14",)),
     # ---- C16: sealed replies only --------------------------------------------------------------
     K("k_unwrap_guard", F, "RpcClient._process_response", ("if", 0),
       [("self__auth", B), ("encrypt_offsets", B), ("pdu_header_auth_len", Z)], B, props=("C16",)),
